@@ -97,7 +97,8 @@ SepFails(J) == \E j \in J : \E e \in SP[j] : e.k[1] \in SepKeys \/ (Len(e.k) = 1
 (* REQUIREMENT: the declarative from-scratch target *)
 SelJobs(w, a) == IF a.kind = "all" THEN w ELSE a.S
 \* PathFn depends on constants only: tabulated once (a constant-level definition is evaluated once by TLC)
-PathTable == [J \in SUBSET Jobs |-> [ps \in PathSpecs |-> [j \in J |-> PathFn(J, ps, j)]]]
+\* (TLCEval forces the lazily represented functions into tables)
+PathTable == TLCEval([J \in SUBSET Jobs |-> TLCEval([ps \in PathSpecs |-> TLCEval([j \in J |-> PathFn(J, ps, j)])])])
 PathOf(J, ps, j) == PathTable[J][ps][j]
 LinkPath(J, ps, j) == Append(PathOf(J, ps, j).p, JOBSEG)
 Representable(J, ps) ==
@@ -107,8 +108,8 @@ Representable(J, ps) ==
   /\ \A i, j \in J : ~StrictPfx(LinkPath(J, ps, i), LinkPath(J, ps, j))
 FromScratch(J, ps) == [links |-> {[d |-> PathOf(J, ps, j).p, j |-> j] : j \in J},
                        dirs  |-> Pfxs({PathOf(J, ps, j).p : j \in J})]
-WantTable == [J \in SUBSET Jobs |-> [ps \in PathSpecs |->
-                IF Representable(J, ps) THEN [rep |-> TRUE, view |-> FromScratch(J, ps)] ELSE [rep |-> FALSE, view |-> EmptyView]]]
+WantTable == TLCEval([J \in SUBSET Jobs |-> TLCEval([ps \in PathSpecs |->
+                IF Representable(J, ps) THEN [rep |-> TRUE, view |-> FromScratch(J, ps)] ELSE [rep |-> FALSE, view |-> EmptyView]])])
 Want(w, v, a) == LET t == WantTable[SelJobs(w, a)][a.ps] IN
                  IF t.rep THEN [res |-> "ok", view |-> t.view] ELSE [res |-> "RuntimeError", view |-> v]
 
